@@ -61,6 +61,7 @@ func VerifHarness_FrameCall() {
 	}
 	expectedIndex := tr.callTree.count
 	cursorBefore := tr.callTree.current
+	stampBefore := tr.CurrentCallIndex()
 
 	preKind, postKind, calleeKind := verifU64("pre.err"), verifU64("post.err"), verifU64("callee.err")
 	verifAssume(preKind <= 6)
@@ -101,6 +102,10 @@ func VerifHarness_FrameCall() {
 		contract.Gas -= used
 		runLeft = contract.Gas
 		calleeErr = verifErrKind(calleeKind)
+		// the host (or an Aspect's own EVM call) may switch join points while the callee runs
+		if verifBool("callee.togglesjp") {
+			evm.IsExecuteJP = !evm.IsExecuteJP
+		}
 		return calleeRet, calleeErr
 	}
 
@@ -108,6 +113,7 @@ func VerifHarness_FrameCall() {
 	verifReach("returned")
 
 	nPre, nRun, nPost := rec.count("JP-pre"), rec.count("Run"), rec.count("JP-post")
+	jpAtReturn := evm.IsExecuteJP // the switch as it stands when the callee has returned
 
 	// ---- C04: a failed frame leaves the world untouched
 	if err != nil {
@@ -122,13 +128,22 @@ func VerifHarness_FrameCall() {
 	verifAssert(left <= gas, "C06: a frame never returns more gas than it was given")
 
 	// ---- C05: join point firing discipline
-	if !jpOn || !bound {
-		verifAssert(nPre == 0 && nPost == 0, "C05: no Aspect runs when join points are off or nothing is bound")
+	if !bound {
+		verifAssert(nPre == 0 && nPost == 0, "C05: no Aspect runs when nothing is bound")
+	}
+	if !jpOn {
+		verifAssert(nPre == 0, "C05: no pre join point when join points are off at entry")
+	}
+	if !jpAtReturn {
+		verifAssert(nPost == 0, "C05: no post join point when join points are off when the callee returns")
 	}
 	verifAssert(nPre <= 1 && nPost <= 1 && nRun <= 1, "C05: at most one firing of each kind per frame")
 	if nRun == 1 && jpOn && bound {
 		verifReach("ran-with-jp")
-		verifAssert(nPre == 1 && nPost == 1, "C05: a call that runs code fires pre and post exactly once")
+		verifAssert(nPre == 1, "C05: a call that runs code fires its pre join point exactly once")
+	}
+	if nRun == 1 && jpAtReturn && bound {
+		verifAssert(nPost == 1, "C05: a call that ran code fires its post join point exactly once")
 	}
 	if nPre == 1 {
 		var pre verifLogEntry
@@ -161,7 +176,7 @@ func VerifHarness_FrameCall() {
 				verifAssert(left == 0, "C06: a non-revert pre-join-point failure forfeits the gas")
 			}
 		} else {
-			verifAssert(iPre < iRun && iRun < iPost, "C05: pre, code, post in this order")
+			verifAssert(iPre < iRun && (iPost < 0 || iRun < iPost), "C05: pre, code, post in this order")
 			verifAssert(runGas == preLeft, "C06: the callee starts with exactly what the pre join point left")
 		}
 	}
@@ -194,12 +209,18 @@ func VerifHarness_FrameCall() {
 		}
 		if postKind == 2 || postKind == 4 {
 			verifAssert(err == ErrOutOfGas, "C06: join-point out-of-gas surfaces as the EVM's out-of-gas error")
+			verifAssert(left == 0, "C06: join-point out-of-gas returns no gas")
+		}
+		if postKind == 3 || postKind == 6 {
+			// whatever the callee did (success, revert, halt): a non-revert Aspect failure is an exceptional halt
+			verifAssert(left == 0, "C06: a non-revert post-join-point failure forfeits the frame's gas")
+			verifAssert(err != nil && !verifIsRevert(err), "C06: a non-revert post-join-point failure is not reported as a revert")
 		}
 		if err == nil || verifIsRevert(err) {
 			verifAssert(left == postLeft, "C06: the caller gets back exactly what the post join point left")
 		}
 	}
-	if nRun == 1 && nPost == 0 && nPre == 0 {
+	if nRun == 1 && nPost == 0 {
 		if err == nil || verifIsRevert(err) {
 			verifAssert(left == runLeft, "C06: without Aspects the caller gets back what the callee left")
 		}
@@ -207,6 +228,9 @@ func VerifHarness_FrameCall() {
 	if err != nil && !verifIsRevert(err) && err.Error() != "execution reverted" && (nRun == 1 || nPre == 1) {
 		verifAssert(left == 0, "C06: a non-revert failure forfeits the frame's gas")
 	}
+
+	// ---- C10: what the issuing frame journals after this frame is stamped with its own index again
+	verifAssert(tr.CurrentCallIndex() == stampBefore, "C10: after the frame returns, entries are attributed to the issuing frame again")
 
 	// ---- C07 / C08: the call-tree node of this frame
 	ct := tr.CallTree()
